@@ -464,6 +464,103 @@ def run_decimals(ctx, dc):
 
 
 # ---------------------------------------------------------------------------------------------------------------
+# the conversions must not depend on the decimal context of the calling thread (precision, rounding mode, traps)
+def decimal_contexts():
+    import decimal
+    return [('prec6', decimal.Context(prec=6)),
+            ('prec9-down', decimal.Context(prec=9, rounding=decimal.ROUND_DOWN)),
+            ('prec50-up', decimal.Context(prec=50, rounding=decimal.ROUND_UP)),
+            ('prec3-ceiling-smallE', decimal.Context(prec=3, rounding=decimal.ROUND_CEILING, Emax=5, Emin=-5)),
+            ('prec6-traps', decimal.Context(prec=6, traps=[decimal.Inexact, decimal.Rounded, decimal.Subnormal, decimal.InvalidOperation,
+                                                            decimal.Overflow, decimal.Underflow, decimal.DivisionByZero]))]
+
+
+def run_decimal_contexts(ctx, dc, b):
+    import decimal
+    rng = ctx.subrng('dec-ctx')
+    decs = [Decimal('1234567.891'), Decimal('-1234567.891'), Decimal('0.123456789012345678'), Decimal('123456789012345678'), Decimal('1E-7'),
+            Decimal('123456789012345678E+3'), Decimal('0E-15'), Decimal('-0'), Decimal('1.50'), Decimal('1000000'), Decimal('9999999'), Decimal('0.000001234567')]
+    for _ in range(ctx.n(1500, 15000)):
+        nd = rng.randrange(1, 19)
+        decs.append(mk_dec(rng.randrange(2), rng.randrange(10 ** (nd - 1), 10 ** nd), rng.randrange(-18, 19)))
+    lits = ['1234567.891', '-0.123456789012345678', '123456789012345678', '+0.50', '.5', '5.', ' 1234567.891 ']
+    stamps = [Decimal('1700000000.123'), Decimal('1.0005'), Decimal('0.0014999'), Decimal('1234567.891'), Decimal('1700000000.1234567'), Decimal('0')]
+    for _ in range(ctx.n(300, 3000)):
+        stamps.append(mk_dec(0, rng.randrange(10 ** 15), -rng.randrange(0, 9)))
+    durs = [Decimal('3723.000001'), Decimal('1234567.891'), Decimal('0.000001'), Decimal('86399.999999')]
+    specials = _special_props()
+    for cname, c in decimal_contexts():
+        with decimal.localcontext(c):
+            for d in decs:
+                r = call(dc.DecimalConverter.to_xml, d)
+                case = {'kind': 'dec-ctx', 'context': cname, 'd': str(d)}
+                if r[0] != 'ok':
+                    ctx.fail('decimal:context-dependent', f'[{cname}] to_xml({d!r}) raised {r[1]}', case)
+                    continue
+                back = call(dc.DecimalConverter.to_py, r[1])
+                if 'E' in r[1].upper() or back[0] != 'ok' or back[1] != d:
+                    ctx.fail('decimal:context-dependent', f'[{cname}] to_py(to_xml({d!r})) == {back[1]!r} (xml {r[1]!r})', case)
+                if b is not None:
+                    b.add('decxml ' + dec_tuple(d), 'ok ' + r[1], f'DecimalConverter.to_xml under decimal context {cname}', case)
+                ctx.case(('dec-ctx', cname, str(d)))
+            for s in lits:
+                r = call(dc.DecimalConverter.to_py, s)
+                if r[0] != 'ok' or r[1].as_tuple() != Decimal(s.strip()).as_tuple():
+                    ctx.fail('decimal:context-dependent', f'[{cname}] to_py({s!r}) == {r[1]!r}', {'kind': 'dec-ctx', 'context': cname, 's': s})
+                if b is not None:
+                    b.add('decpy ' + hx(s), 'ok ' + dec_tuple(r[1]) if r[0] == 'ok' else 'err ' + r[1], f'DecimalConverter.to_py under decimal context {cname}', {'s': s})
+            for x in stamps:
+                r = call(dc.TimestampConverter.to_xml, x)
+                want = round(fractions.Fraction(x) * 1000)
+                if r[0] != 'ok' or abs(int(r[1]) - fractions.Fraction(x) * 1000) > fractions.Fraction(1, 2):
+                    ctx.fail('timestamp:context-dependent', f'[{cname}] to_xml({x!r}) == {r[1]!r}, the value is {float(fractions.Fraction(x) * 1000)!r} ms',
+                             {'kind': 'ts-ctx', 'context': cname, 'x': str(x)})
+                ctx.case(('ts-ctx', cname, str(x)))
+                del want
+            for v in durs:
+                r = call(dc.DurationConverter.to_xml, v)
+                p = call(dc.DurationConverter.to_py, r[1]) if r[0] == 'ok' else r
+                if p[0] != 'ok' or p[1] != float(v):
+                    ctx.fail('duration:context-dependent', f'[{cname}] {v!r} -> {r[1]!r} -> {p[1]!r}', {'kind': 'dur-ctx', 'context': cname, 'v': str(v)})
+                ctx.case(('dur-ctx', cname, str(v)))
+            for klass, name, prop, kind in specials:
+                if kind == 'declist':
+                    for lst in ([Decimal('1234567.891'), Decimal('5E-7')], [Decimal('0.123456789012345678'), Decimal('1E+2'), Decimal('0E-15')]):
+                        list_property_oracle(ctx, dc, klass, name, prop, kind, lst, None)
+        ctx.count('decimal-context:' + cname)
+    if b is not None:
+        b.flush()
+
+
+def replay_context_case(ctx, case):
+    import decimal
+    dc, _ = _mods()
+    c = dict(decimal_contexts())[case['context']]
+    with decimal.localcontext(c):
+        if case['kind'] == 'dec-ctx' and 'd' in case:
+            d = Decimal(case['d'])
+            r = call(dc.DecimalConverter.to_xml, d)
+            back = call(dc.DecimalConverter.to_py, r[1]) if r[0] == 'ok' else r
+            if r[0] != 'ok' or back[0] != 'ok' or back[1] != d:
+                ctx.fail('decimal:context-dependent', f'{case}: {r} {back}', case)
+        elif case['kind'] == 'dec-ctx':
+            r = call(dc.DecimalConverter.to_py, case['s'])
+            if r[0] != 'ok' or r[1].as_tuple() != Decimal(case['s'].strip()).as_tuple():
+                ctx.fail('decimal:context-dependent', f'{case}: {r}', case)
+        elif case['kind'] == 'ts-ctx':
+            x = Decimal(case['x'])
+            r = call(dc.TimestampConverter.to_xml, x)
+            if r[0] != 'ok' or abs(int(r[1]) - fractions.Fraction(x) * 1000) > fractions.Fraction(1, 2):
+                ctx.fail('timestamp:context-dependent', f'{case}: {r}', case)
+        elif case['kind'] == 'dur-ctx':
+            v = Decimal(case['v'])
+            r = call(dc.DurationConverter.to_xml, v)
+            p = call(dc.DurationConverter.to_py, r[1]) if r[0] == 'ok' else r
+            if p[0] != 'ok' or p[1] != float(v):
+                ctx.fail('duration:context-dependent', f'{case}: {r} {p}', case)
+
+
+# ---------------------------------------------------------------------------------------------------------------
 # durations
 TD_MAX_US = (999999999 * 86400 + 86399) * 10 ** 6 + 999999
 
@@ -1189,6 +1286,7 @@ def run(ctx):
     run_timestamps(ctx, dc)
     run_lexical(ctx, dc)
     run_decimals(ctx, dc)
+    run_decimal_contexts(ctx, dc, Batch(ctx))
     run_durations(ctx, dc, iso)
     run_properties(ctx, dc, Batch(ctx))
     run_special_properties(ctx, dc, iso, Batch(ctx))
@@ -1229,6 +1327,7 @@ def search(ctx):
         duration_value_oracle(ctx, s, r)
     if ctx.failures:
         return
+    run_decimal_contexts(ctx, dc, None)
     run_properties(ctx, dc, None)
     run_special_properties(ctx, dc, iso, None)
     if ctx.failures:
@@ -1283,6 +1382,8 @@ def _replay_case(ctx, dc, iso, case, report=False):
         duration_value_oracle(ctx, case['s'], r)
     elif k == 'prop':
         replay_property_case(ctx, case)
+    elif k in ('dec-ctx', 'ts-ctx', 'dur-ctx'):
+        replay_context_case(ctx, case)
     elif k in ('dob', 'proplist', 'proplist-read'):
         replay_special_case(ctx, case)
     elif k == 'enum':
